@@ -100,8 +100,15 @@ def _pre(E):
 
 def _mod(E):
     o = E.s0.objs[E.s0.objs[E["model"].oid]["attr:_solver"].oid]["attr:objective"]
-    return [("ghost", "trace", lambda st: ()), ("ghost", "objc", lambda st: fresh("objc", C5.CoefMap)), ("ghost", "objective_installed", lambda st: None),
-            ("attr", o, "name", lambda st: (st, VStr(fresh("nm", Id)))), ("attr", o, "direction", lambda st: (st, VStr(fresh("dr", Id))))]
+    out = [("ghost", "trace", lambda st: ()), ("ghost", "objc", lambda st: fresh("objc", C5.CoefMap)), ("ghost", "objective_installed", lambda st: None),
+           ("attr", o, "name", lambda st: (st, VStr(fresh("nm", Id)))), ("attr", o, "direction", lambda st: (st, VStr(fresh("dr", Id))))]
+    if "attr:expression" in E.s0.objs[o.oid]:
+        # a caller that tracks the objective's expression sees it replaced (by the pFBA objective's, uninterpreted)
+        out.append(("attr", o, "expression", lambda st: (st, N.VNp(fresh("np:pfba_expression", N.NP)))))
+    if "attr:value" in E.s0.objs[o.oid]:
+        from pyvc.values import xr_fresh
+        out.append(("attr", o, "value", lambda st: (lambda v, c: (st.assume(c), v))(*xr_fresh("objval"))))
+    return out
 
 
 _c_bad = Case("already_pfba", requires=_already, raises="ValueError")
@@ -118,3 +125,17 @@ def lemmas():
     return [Obl("C09/lemma/pfba/sum-of-pair-at-least-abs-flux", dom, f + r >= absv, "lemma"),
             Obl("C09/lemma/pfba/abs-flux-attained", [], z3.Exists([f, r], z3.And(f >= 0, r >= 0, f - r == v, f + r == absv)), "lemma"),
             Obl("C09/lemma/pfba/minimum-has-one-of-pair-zero", dom + [f + r == absv], z3.Or(f == 0, r == 0), "lemma")]
+def _post_call(E):
+    """add_pfba as seen by a caller: the part of the post-condition that is about the model (the ghost trace of the calls made
+    inside - fix_objective_as_constraint first, with the fraction - is proved on the body and is not visible to callers)"""
+    dl = E.s0.objs[E["model"].oid]["attr:reactions"]
+    n, e = L(E.s0, dl)
+    o1 = C5.objc(E.s1)
+    x, w = qv("px", Ref), qv("pw")
+    in_model = z3.Exists([w], z3.And(0 <= w, w < n, z3.Or(x == C1.fwd(e[w]), x == C1.rev(e[w]))))
+    return z3.And(_obj(E, E.s1)["attr:name"].t == id_lit("_pfba_objective"), _obj(E, E.s1)["attr:direction"].t == id_lit("min"),
+                  FA([x], o1[x] == z3.If(in_model, z3.RealVal(1), z3.RealVal(0)), patterns=[o1[x]]))
+
+
+REG.get("add_pfba").call_cases = [Case("fresh", requires=lambda E: z3.Not(_already(E)), ensures=_post_call), _c_bad]
+[t for n_, t in REG.get("add_pfba").params if n_ == "objective"][0].default = NONE          # add_pfba(model, fraction_of_optimum=...)
